@@ -281,6 +281,59 @@ theorem C04_expr_passes_compose_partial (eqOn : Bool) (r : Nat → String) (o : 
   ⟨variables_keeps_free (kindPred_nativeLogical eqOn) o _ (C04_logical_routed eqOn _),
    variables_keeps_free kindPred_isIfExp o _ (logical_keeps_ifexp_free eqOn _ (C04_ifexp_routed_partial r g h))⟩
 
+
+/-! ### in the checker's own vocabulary -/
+private theorem kindPred_nativeExprKind (eqOn : Bool) : KindPred (nativeExprKind eqOn) where
+  ctx := by
+    intro ov e
+    cases e <;> simp [adjustCtx, nativeExprKind, nativeLogical, isBoolOp, isNot, isEqCompare, isIfExp]
+    rename_i k _ _; cases k <;> simp [adjustCtx]
+  kids := by intro h e; cases e <;> simp [kidsE, nativeExprKind, nativeLogical, isBoolOp, isNot, isEqCompare, isIfExp]
+  call := by intros; rfl
+  lambda := by intros; rfl
+  arguments := by intros; rfl
+  attr := by intros; rfl
+  name := by intros; rfl
+  const := by intros; rfl
+  none := rfl
+
+private theorem logicalAllKinds (eqOn : Bool) : HooksFree (Logical.hooks eqOn) (nativeExprKind eqOn) isIfExp where
+  pre := by intro e r h; simp [Logical.hooks] at h
+  post := by
+    intro e _ hb hk
+    show anyE _ (Logical.post eqOn (kidsE (Logical.hooks eqOn) e)) = false
+    have hpe : isIfExp (kidsE (Logical.hooks eqOn) e) = false := by
+      rw [kindPred_isIfExp.kids]; simp only [anyE, orf] at hb; exact hb.1
+    generalize kidsE (Logical.hooks eqOn) e = e' at hk hpe
+    cases hr : rewrittenByLogical e' with
+    | true =>
+      refine logical_post_rewrites_free (kindPred_nativeExprKind eqOn) eqOn ?_ ?_ e' hk hr
+      · intro op l r ho
+        have := overload_none_cmp eqOn op l r ho
+        simp [nativeExprKind, this, isIfExp]
+      · intro i op e ho
+        have := overload_none_un eqOn i op e ho
+        simp [nativeExprKind, this, isIfExp]
+    | false =>
+      rw [logical_post_other eqOn e' hr]
+      have : nativeLogical eqOn e' = false := by
+        cases e' <;> simp [rewrittenByLogical, nativeLogical, isBoolOp, isNot, isEqCompare] at *
+      simp [anyE, nativeExprKind, this, hpe, hk]
+
+/-- **The three expression passes, judged by the checker that runs on the real output**: under
+`noNestedIfExp`, whatever `offE` still reports on `variables(logical(conditional(e)))` is a CALL — and
+calls are call_trees' business (`C04_calls_routed_expr`, which runs earlier in the pipeline; the later
+passes only insert `ag__.*` calls). -/
+theorem C04_expr_pipeline_only_calls_partial (cfg : Cfg) (r : Nat → String) (o : Nat → Bool) (e : Expr)
+    (h : noNestedIfExpE e = true) (sc : List String) (w : Bool) (pos : Pos) :
+    ∀ off ∈ offE cfg sc w pos (Variables.visitE o (Logical.visitE cfg.eqOn (IfExp.visitE r e))), off.kind = "Call" := by
+  have h1 : anyE isIfExp (IfExp.visitE r e) = false := C04_ifexp_routed_partial_expr r e h
+  have h2 : anyE (nativeExprKind cfg.eqOn) (Logical.visitE cfg.eqOn (IfExp.visitE r e)) = false :=
+    mapE_free _ _ _ (logicalAllKinds cfg.eqOn) _ h1
+  have h3 : anyE (nativeExprKind cfg.eqOn) (Variables.visitE o (Logical.visitE cfg.eqOn (IfExp.visitE r e))) = false :=
+    mapE_free _ _ _ (variablesHooksFree (kindPred_nativeExprKind cfg.eqOn) o) _ h2
+  exact off_only_calls cfg sc w _ pos h3
+
 /-! ### calls -/
 
 /- Full statement (FALSE for the pinned `call_trees.visit_FunctionDef`, which visits `defaults` and
